@@ -529,6 +529,61 @@ fn corpus(seed: u64, first: usize, count: usize, out: &Path, exclude: &str) -> R
             }
         }
     }
+    // the repository's own test theories, as far as the fragment parser covers them
+    let repo = std::env::var("VERIF_REPO").unwrap_or_else(|_| "/repo".into());
+    let max_bytes: usize = std::env::var("VGEN_REPO_MAX_BYTES").ok().and_then(|s| s.parse().ok()).unwrap_or(3000);
+    let mut files: Vec<PathBuf> = std::fs::read_dir(format!("{repo}/eqlog-test-eval/src"))
+        .map(|rd| rd.filter_map(|e| e.ok()).map(|e| e.path()).collect())
+        .unwrap_or_default();
+    files.sort();
+    let mut skipped: Vec<String> = Vec::new();
+    for f in files {
+        if f.extension().map(|x| x != "eql").unwrap_or(true) {
+            continue;
+        }
+        let stem0 = f.file_stem().unwrap().to_string_lossy().to_string();
+        let stem = format!("rt_{stem0}");
+        let text = match std::fs::read_to_string(&f) {
+            Ok(t) => t,
+            Err(_) => continue,
+        };
+        if excluded.contains(&stem.as_str()) {
+            continue;
+        }
+        if text.len() > max_bytes {
+            skipped.push(format!("{stem0}: larger than {max_bytes} bytes"));
+            continue;
+        }
+        let prog = match lang::parse::parse_program(&text) {
+            Ok(p) if !p.rules.is_empty() => p,
+            Ok(_) => {
+                skipped.push(format!("{stem0}: no rules"));
+                continue;
+            }
+            Err(e) => {
+                skipped.push(format!("{stem0}: {e}"));
+                continue;
+            }
+        };
+        match compile_module(&tmp, &stem, &text) {
+            Ok(module) => match gen_driver(&prog, &module, &stem) {
+                Ok(driver) => {
+                    write_if_changed(&gen_dir.join(format!("{stem}.eql")), &text)?;
+                    write_if_changed(&gen_dir.join(format!("{stem}.eql.rs")), &module)?;
+                    write_if_changed(&gen_dir.join(format!("{stem}.driver.rs")), &driver)?;
+                    items.push(CorpusItem {
+                        stem,
+                        text,
+                        origin: "parse".to_string(),
+                        program: prog,
+                    });
+                }
+                Err(e) => return Err(format!("driver generation failed for {stem}: {e}")),
+            },
+            Err(e) => skipped.push(format!("{stem0}: compiler says {e}")),
+        }
+    }
+    diagnostics.push(format!("repository theories skipped: {}", skipped.join("; ")));
     let n_models: usize = std::env::var("VGEN_MODELS").ok().and_then(|s| s.parse().ok()).unwrap_or(count / 4);
     for i in 0..n_models * 2 {
         if items.iter().filter(|it| it.origin.starts_with("genmodel")).count() >= n_models {
